@@ -171,10 +171,10 @@ func modelValues(file string, terms []string) (map[string]string, string) {
 }
 
 func tryReplay(s *Session, prop string, g *OblGroup, fo *Obligation) (bool, map[string]interface{}) {
-	if fo.Result != "sat" || fo.File == "" {
-		return false, map[string]interface{}{"status": "the solver gave no model for this obligation (" + fo.Result + ")"}
-	}
 	for _, d := range loadDrivers() {
+		if len(d.Inputs) > 0 && (fo.Result != "sat" || fo.File == "") {
+			continue
+		}
 		if ok, _ := regexp.MatchString(d.Match, g.Func); !ok {
 			continue
 		}
@@ -190,9 +190,13 @@ func tryReplay(s *Session, prop string, g *OblGroup, fo *Obligation) (bool, map[
 		for _, n := range names {
 			terms = append(terms, d.Inputs[n])
 		}
-		vals, why := modelValues(fo.File, terms)
-		if vals == nil {
-			return false, map[string]interface{}{"status": "model projection failed: " + why}
+		vals := map[string]string{}
+		if len(terms) > 0 {
+			var why string
+			vals, why = modelValues(fo.File, terms)
+			if vals == nil {
+				return false, map[string]interface{}{"status": "model projection failed: " + why}
+			}
 		}
 		input := map[string]string{"obligation": g.Name, "clause": g.Clause}
 		for _, n := range names {
@@ -216,6 +220,9 @@ func tryReplay(s *Session, prop string, g *OblGroup, fo *Obligation) (bool, map[
 		return confirmed, map[string]interface{}{"driver": d.File, "input": input, "input_file": inFile, "driver_output": lines,
 			"status": map[bool]string{true: "the real code contradicts the clause on this input", false: "the real code agrees with the clause on the model's input (abstraction too coarse, or the driver does not cover this clause)"}[confirmed],
 			"raw": trunc(string(out), 1500)}
+	}
+	if fo.Result != "sat" {
+		return false, map[string]interface{}{"status": "the solver gave no model for this obligation (" + fo.Result + ") and no model-free driver covers it"}
 	}
 	return false, map[string]interface{}{"status": "no replay driver for this function / obligation kind"}
 }
